@@ -5,6 +5,7 @@ package main
 import (
 	"fmt"
 	"go/types"
+	"sort"
 	"strings"
 
 	"golang.org/x/tools/go/ssa"
@@ -23,9 +24,9 @@ func init() {
 }
 
 type scbInfo struct {
-	a        *ssa.Alloc
-	value    string // comparisonValue term
-	dest     string // destChunkID term
+	a        valInstr // the composite literal, or the call of a constructor helper that returns one
+	value    string   // comparisonValue term
+	dest     string   // destChunkID term
 	destVal  ssa.Value
 	isDeflt  bool // stored into switchBranch.defaultCase
 	appended bool // appended to the cases list
@@ -60,6 +61,41 @@ func (c *Ctx) switchCaseBranches(fn *ssa.Function) []scbInfo {
 		}
 		out = append(out, in)
 	}
+	// made by a constructor helper (`newDefaultCaseBranch(stmt, dest)`): fields read through the call
+	for _, ci := range callsIn(fn) {
+		call, ok := ci.(*ssa.Call)
+		g := callee(ci)
+		if !ok || g == nil || !c.W.InRepo(g) || g.Signature.Results().Len() != 1 || !typeIs(g.Signature.Results().At(0).Type(), "emitter", "switchCaseBranch") {
+			continue
+		}
+		f := c.valueFields(fn, call, call)
+		if f == nil {
+			continue
+		}
+		in := scbInfo{a: call, value: f["comparisonValue"], dest: f["destChunkID"], must: c.mustLits(fn, call.Block())}
+		// the destination as a value of fn, when the helper takes it as a parameter
+		for _, r := range returnsOf(g) {
+			if gf := c.valueFields(g, r.Results[0], r); gf != nil {
+				if k := paramIndexOfTerm(gf["destChunkID"]); k >= 0 && k < len(call.Call.Args) {
+					in.destVal = call.Call.Args[k]
+				}
+			}
+		}
+		if call.Referrers() != nil {
+			for _, ref := range *call.Referrers() {
+				if st, isSt := ref.(*ssa.Store); isSt && st.Val == ssa.Value(call) {
+					if _, _, fld, ok := fieldAddrOf(st.Addr); ok && fld == "defaultCase" {
+						in.isDeflt = true
+					}
+				}
+			}
+			if len(appendsHolding(call)) > 0 {
+				in.appended = true
+			}
+		}
+		out = append(out, in)
+	}
+	sort.SliceStable(out, func(i, j int) bool { return out[i].a.Pos() < out[j].a.Pos() })
 	return out
 }
 
